@@ -49,7 +49,7 @@ func runC06(c *core.Ctx) {
 	k := 1
 	graphs := []*world.Graph{world.BaseGraph(0), world.BaseGraph(1)}
 	fsViews := []*world.Graph{graphs[0].FSView(s), graphs[1].FSView(s)}
-	kinds := []world.FaultKind{world.FaultErr, world.FaultGroup, world.FaultExt, world.FaultShared, world.FaultWrapped, world.FaultTwin}
+	kinds := []world.FaultKind{world.FaultErr, world.FaultGroup, world.FaultExt, world.FaultShared, world.FaultWrapped, world.FaultTwin, world.FaultTwoCauses}
 	completed := true
 	docsWithin(c, s, world.BaseDocs(), k, 0, func(d *world.Doc, dist int) bool {
 		if c.Expired() {
@@ -121,7 +121,7 @@ func runC06(c *core.Ctx) {
 						var plans []plan
 						for _, ck := range calls {
 							for _, fk := range kinds {
-								if fk == world.FaultWrapped && dist > 0 && !c.Thorough() {
+								if (fk == world.FaultWrapped || fk == world.FaultTwoCauses) && dist > 0 && !c.Thorough() {
 									continue // quick: the wrapped group on the bases only (the plain and the twin group go everywhere)
 								}
 								plans = append(plans, plan{keyOf(ck): fk})
